@@ -152,6 +152,11 @@ func seqProfile(prop string, cas int, tier string) Profile {
 		p.RestartEvery = 60
 		p.W[OpMkdir] = 1
 		p.W[OpSymlink] = 2
+		if cas%4 == 1 {
+			// nearly full: index blocks and data blocks compete for the last free blocks
+			p.NearFull = true
+			p.Sweep = false
+		}
 	}
 	return p
 }
